@@ -117,11 +117,45 @@ func ruleMutationSites(c *Ctx) {
 	c.floor(rule, "mutation constructs on installed tables", n, 20)
 }
 
-// refEvents extracts reference-counter events with canonical receiver/argument terms.
+// refRole names an object position-free: p<i> for parameters, recv for the receiver, otherwise its name.
+func refRole(info *types.Info, fd *ast.FuncDecl, e ast.Expr) string {
+	if v, ok := objOfIdent(info, e).(*types.Var); ok && !v.IsField() && !isParamOf(info, fd, v) {
+		if def := soleDefinition(info, fd, v); def != nil {
+			if _, isCall := ast.Unparen(def).(*ast.CallExpr); !isCall || defaultPure(info, ast.Unparen(def).(*ast.CallExpr)) {
+				return refRole(info, fd, def)
+			}
+		}
+	}
+	obj, path := selectorPath(info, e)
+	if obj == nil {
+		return "?" + types.ExprString(e)
+	}
+	r := paramRole(info, fd, obj)
+	if len(path) > 0 {
+		r += "." + strings.Join(path, ".")
+	}
+	return r
+}
+
+// refRecv renders the receiver of a counter primitive: a holder looked up with
+// refdRIB(base holder, instance name) or a plain holder object.
+func refRecv(info *types.Info, fd *ast.FuncDecl, e ast.Expr) string {
+	if v, ok := objOfIdent(info, e).(*types.Var); ok && !v.IsField() {
+		if call, i := soleTupleDef(info, fd, v); call != nil && i == 0 {
+			if f, ok := calleeObj(info, call).(*types.Func); ok && f.Name() == "refdRIB" && len(call.Args) == 2 {
+				return "refdRIB(" + refRole(info, fd, call.Args[0]) + "," + refRole(info, fd, call.Args[1]) + ")"
+			}
+		}
+		if def := soleDefinition(info, fd, v); def != nil {
+			return refRole(info, fd, def)
+		}
+	}
+	return refRole(info, fd, e)
+}
+
+// refEvents extracts reference-counter events with canonical receiver/argument roles.
 func refEvents(fi *FuncInfo) func(n ast.Node) []Event {
 	info := fi.Pkg.TypesInfo
-	uq := 0
-	x := &condXlat{info: info, fd: fi.Decl, uniq: &uq, pure: func(call *ast.CallExpr) bool { return defaultPure(info, call) }}
 	return func(n ast.Node) []Event {
 		var out []Event
 		calls := callsIn(n)
@@ -134,14 +168,18 @@ func refEvents(fi *FuncInfo) func(n ast.Node) []Event {
 			switch f.Name() {
 			case "incNHGRefCount", "decNHGRefCount", "incNHRefCount", "decNHRefCount":
 				se := ast.Unparen(call.Fun).(*ast.SelectorExpr)
-				rt, _ := x.term(se.X)
-				at, _ := x.term(call.Args[0])
-				out = append(out, Event{Kind: fmt.Sprintf("%s[%s](%s)", strings.TrimSuffix(f.Name(), "RefCount"), rt, at), Node: call})
+				arg := call.Args[0]
+				// a local defined once by a getter chain is rendered by its definition
+				if v, ok := objOfIdent(info, arg).(*types.Var); ok && !v.IsField() {
+					if def := soleDefinition(info, fi.Decl, v); def != nil {
+						arg = def
+					}
+				}
+				out = append(out, Event{Kind: fmt.Sprintf("%s[%s](%s)", strings.TrimSuffix(f.Name(), "RefCount"), refRecv(info, fi.Decl, se.X), refRole(info, fi.Decl, arg)), Node: call})
 			case "handleReferences", "handleNHGReferences":
 				var as []string
 				for _, a := range call.Args {
-					t, _ := x.term(a)
-					as = append(as, t)
+					as = append(as, refRole(info, fi.Decl, a))
 				}
 				out = append(out, Event{Kind: f.Name() + "(" + strings.Join(as, ",") + ")", Node: call})
 			}
@@ -171,7 +209,7 @@ func ruleInstallRefs(c *Ctx) {
 		c.vanished(rule, fi.Name, "type switch", "no type switch over the operation's entry")
 		return
 	}
-	recv := recvName(fi)
+	_ = recvName
 	for _, cc := range ts.Body.List {
 		cl := cc.(*ast.CaseClause)
 		if len(cl.List) != 1 {
@@ -216,18 +254,16 @@ func ruleInstallRefs(c *Ctx) {
 		if id, ok := ts.Assign.(*ast.AssignStmt); ok {
 			tvar = id.Lhs[0].(*ast.Ident).Name
 		}
-		xt := &condXlat{info: info, fd: fi.Decl, uniq: new(int), pure: func(call *ast.CallExpr) bool { return defaultPure(info, call) }}
 		holder := ""
 		if se, ok := ast.Unparen(addCall.Fun).(*ast.SelectorExpr); ok {
-			holder, _ = xt.term(se.X)
+			holder = refRole(info, fi.Decl, se.X)
 		}
-		origTerm := xt.callTerm(addCall, 0) + ".1" // the replaced entry: result #1 of this very AddXXX call
-		_ = orig
+		origTerm := nameOrBlank(orig) // the replaced entry: result #1 of this very AddXXX call (bound above)
 		// expected reference event
 		want := ""
 		switch {
 		case k.TopLevel:
-			want = fmt.Sprintf("handleReferences(%s,%s,%s,%s.%s.%s)", recv, holder, origTerm, tvar, k.OneofField, k.PayloadFld)
+			want = fmt.Sprintf("handleReferences(recv,%s,%s,%s.%s.%s)", holder, origTerm, tvar, k.OneofField, k.PayloadFld)
 		case k.Table == "NextHopGroup":
 			want = fmt.Sprintf("handleNHGReferences(%s,%s,%s.%s.%s)", holder, origTerm, tvar, k.OneofField, k.PayloadFld)
 		}
@@ -250,7 +286,7 @@ func ruleInstallRefs(c *Ctx) {
 			}
 		}
 		// the operand handed to AddXXX is the same oneof payload
-		if a0, _ := (&condXlat{info: info, fd: fi.Decl, uniq: new(int)}).term(addCall.Args[0]); a0 != tvar+"."+k.OneofField {
+		if a0 := refRole(info, fi.Decl, addCall.Args[0]); a0 != tvar+"."+k.OneofField {
 			bad = "AddXXX is handed " + a0 + ", expected the operation's own " + k.OneofField + " entry"
 		}
 		okd := "no references (next-hops reference nothing)"
@@ -280,8 +316,9 @@ func ruleHandleReferencesTable(c *Ctx) {
 	aSameID, _ := orderAtom(nw+".NextHopGroup.Value", orig+".NextHopGroup")
 	aErrOld := eqAtom("call:refdRIB#1.1", "nil")
 	aErrNew := eqAtom("call:refdRIB#2.1", "nil")
-	dec := fmt.Sprintf("decNHG[%s.refdRIB(%s,%s.NextHopGroupNetworkInstance).0](%s.NextHopGroup)", r, ni, orig, orig)
-	inc := fmt.Sprintf("incNHG[%s.refdRIB(%s,%s.NextHopGroupNetworkInstance.Value).0](%s.NextHopGroup.Value)", r, ni, nw, nw)
+	_, _ = r, ni
+	dec := "decNHG[refdRIB(p1,p2.NextHopGroupNetworkInstance)](p2.NextHopGroup)"
+	inc := "incNHG[refdRIB(p1,p3.NextHopGroupNetworkInstance.Value)](p3.NextHopGroup.Value)"
 	runTable(c, tableSpec{
 		Rule: "TABLE-REFERENCES", Fn: fi, Construct: "handleReferences: (original nil?, same target?) → {dec old, inc new}",
 		Events: refEvents(fi),
@@ -381,7 +418,7 @@ func ruleDeleteRefs(c *Ctx) {
 		return
 	}
 	info := fi.Pkg.TypesInfo
-	recv := recvName(fi)
+	_ = recvName
 	// which locals receive the results of each DeleteXXX
 	type res struct {
 		removed, orig, err types.Object
@@ -389,7 +426,6 @@ func ruleDeleteRefs(c *Ctx) {
 	}
 	got := map[string]res{}
 	var holder string
-	xt := &condXlat{info: info, fd: fi.Decl, uniq: new(int), pure: func(call *ast.CallExpr) bool { return defaultPure(info, call) }}
 	ast.Inspect(fi.Decl.Body, func(n ast.Node) bool {
 		as, ok := n.(*ast.AssignStmt)
 		if !ok || len(as.Rhs) != 1 || len(as.Lhs) != 3 {
@@ -401,9 +437,9 @@ func ruleDeleteRefs(c *Ctx) {
 		}
 		for _, k := range ks {
 			if calleeObj(info, call) == k.Delete.Obj {
-				got[k.Table] = res{objOfIdent(info, as.Lhs[0]), objOfIdent(info, as.Lhs[1]), objOfIdent(info, as.Lhs[2]), xt.callTerm(call, 0) + ".1"}
+				got[k.Table] = res{objOfIdent(info, as.Lhs[0]), objOfIdent(info, as.Lhs[1]), objOfIdent(info, as.Lhs[2]), nameOrBlank(objOfIdent(info, as.Lhs[1]))}
 				if se, ok := ast.Unparen(call.Fun).(*ast.SelectorExpr); ok {
-					holder, _ = xt.term(se.X)
+					holder = refRole(info, fi.Decl, se.X)
 				}
 			}
 		}
@@ -474,7 +510,7 @@ func ruleDeleteRefs(c *Ctx) {
 		case !removed:
 			want = ""
 		case k.TopLevel && origNonNil:
-			want = fmt.Sprintf("decNHG[%s.refdRIB(%s,%s.NextHopGroupNetworkInstance).0](%s.NextHopGroup)", recv, holder, r.origTerm, r.origTerm)
+			want = fmt.Sprintf("decNHG[refdRIB(%s,%s.NextHopGroupNetworkInstance)](%s.NextHopGroup)", holder, r.origTerm, r.origTerm)
 		case k.Table == "NextHopGroup" && origNonNil:
 			// a loop over the members: zero or one iteration in the structural model
 			wantOne := fmt.Sprintf("decNH[%s](%s)", holder, "?")
@@ -537,7 +573,7 @@ func deleteNHGLoopOK(info *types.Info, fi *FuncInfo, orig types.Object, holder s
 		for _, call := range callsIn(rs.Body) {
 			if f, isF := calleeObj(info, call).(*types.Func); isF && f.Name() == "decNHRefCount" {
 				se := ast.Unparen(call.Fun).(*ast.SelectorExpr)
-				if ht, _ := (&condXlat{info: info, fd: fi.Decl, uniq: new(int)}).term(se.X); ht != holder {
+				if refRole(info, fi.Decl, se.X) != holder {
 					continue
 				}
 				// argument: the map key (member index) or value.Index
@@ -563,7 +599,7 @@ func ruleFlushRefs(c *Ctx) {
 		return
 	}
 	info := fi.Pkg.TypesInfo
-	recv := recvName(fi)
+	_ = recvName
 	helpers := c.P.holderHelpers()
 	// loops over the holder's tables
 	seen := map[string]bool{}
@@ -586,7 +622,7 @@ func ruleFlushRefs(c *Ctx) {
 			return true
 		}
 		holderExpr := holderOf(rs.X)
-		holderTerm, _ := (&condXlat{info: info, fd: fi.Decl, uniq: new(int)}).term(holderNode(rs.X))
+		holderTerm := refRole(info, fi.Decl, holderNode(rs.X))
 		keyO, valO := objOfIdent(info, rs.Key), objOfIdent(info, rs.Value)
 		// does the body remove the ranged key from this table?
 		removes := false
@@ -629,7 +665,7 @@ func ruleFlushRefs(c *Ctx) {
 		}
 		ev := refEvents(fi)
 		paths, _ := enumPaths(info, rs.Body.List, ev)
-		want := fmt.Sprintf("decNHG[%s.refdRIB(%s,%s.NextHopGroupNetworkInstance).0](%s.NextHopGroup)", recv, holderTerm, valO.Name(), valO.Name())
+		want := fmt.Sprintf("decNHG[refdRIB(%s,%s.NextHopGroupNetworkInstance)](%s.NextHopGroup)", holderTerm, valO.Name(), valO.Name())
 		bad := ""
 		for _, p := range paths {
 			var evs []string
